@@ -126,7 +126,7 @@ func judgeCall(rr *roundRec, ph *phaseRec, c *callRec) (callJudgement, *finding)
 		if j.scriptedFault {
 			return j, &finding{"cached-key-lost-after-failed-download", fmt.Sprintf("a token whose key is cached and still served was rejected (%q) while the endpoint answered with faults: a failed download must not discard cached keys: %s", c.Err, where)}
 		}
-		if j.cancelledByPeer || j.ownerCancelled {
+		if j.cancelledByPeer || (j.ownerCancelled && strings.Contains(c.Err, "context canceled")) {
 			return j, &finding{"cancel-propagates-to-other-caller", fmt.Sprintf("a token whose key is cached and still served was rejected (%q) after another caller's cancellation: %s", c.Err, where)}
 		}
 		return j, &finding{"cached-key-not-accepted", fmt.Sprintf("a token whose key is cached and still served was rejected (%q): %s", c.Err, where)}
@@ -144,7 +144,7 @@ func judgeCall(rr *roundRec, ph *phaseRec, c *callRec) (callJudgement, *finding)
 		j.verdict = "grey-reject:faulty-download-overlapped"
 	default:
 		j.verdict = "violation"
-		if j.cancelledByPeer || j.ownerCancelled {
+		if j.cancelledByPeer || (j.ownerCancelled && strings.Contains(c.Err, "context canceled")) {
 			return j, &finding{"cancel-propagates-to-other-caller", fmt.Sprintf("caller %d has a live context and a token signed by a served key, no faulty download overlapped its call, yet it failed with %q because the shared download was aborted by ANOTHER caller's cancellation: %s", c.ID, c.Err, where)}
 		}
 		if j.nTaint == 0 {
@@ -257,7 +257,7 @@ func judgePhase(run *stats, rr *roundRec, pi int, ph *phaseRec) []finding {
 		if j.scriptedFault {
 			taint += "f"
 		}
-		if j.cancelledByPeer || j.ownerCancelled {
+		if j.cancelledByPeer || (j.ownerCancelled && strings.Contains(c.Err, "context canceled")) {
 			taint += "c"
 		}
 		run.Distinct(strings.Join([]string{ph.Spec.Mode, shapeName(ph.C0), shapeName(ph.Spec.Shape), c.Kind, j.rC.String(), j.rS.String(), cp, role, taint, outc, fmt.Sprint(rr.Skip)}, "|"))
